@@ -98,7 +98,8 @@ theorem logOf_congr {e e' : Engine} (h2 : e'.shards = e.shards) (r : String) : l
 theorem insert_spec {c : Codec} {G} (hc : CodecOk c G) (e : Engine) (rel : String) (ts : List Tuple)
     (hP : PInv G e) (hL : LInv G e) (hn : ts.Nodup) (hab : ∀ t ∈ ts, t ∉ liveOf e rel) (hg : ∀ t ∈ ts, G rel t) :
     PInv G (insert c e rel ts).1 ∧ LInv G (insert c e rel ts).1 ∧ (insert c e rel ts).1.cfg = e.cfg := by
-  unfold insert
+  show PInv G (insertCore c e rel ts).1 ∧ LInv G (insertCore c e rel ts).1 ∧ (insertCore c e rel ts).1.cfg = e.cfg
+  unfold insertCore
   cases ts with
   | nil => exact ⟨hP, hL, rfl⟩
   | cons first rest =>
@@ -183,7 +184,8 @@ theorem insert_spec {c : Codec} {G} (hc : CodecOk c G) (e : Engine) (rel : Strin
 theorem delete_spec {c : Codec} {G} (hc : CodecOk c G) (e : Engine) (rel : String) (ts : List Tuple)
     (hP : PInv G e) (hL : LInv G e) (hn : ts.Nodup) (hpr : ∀ t ∈ ts, t ∈ liveOf e rel) :
     PInv G (delete c e rel ts).1 ∧ LInv G (delete c e rel ts).1 ∧ (delete c e rel ts).1.cfg = e.cfg := by
-  unfold delete
+  show PInv G (deleteCore c e rel ts).1 ∧ LInv G (deleteCore c e rel ts).1 ∧ (deleteCore c e rel ts).1.cfg = e.cfg
+  unfold deleteCore
   cases ts with
   | nil => exact ⟨hP, hL, rfl⟩
   | cons first rest =>
